@@ -1,10 +1,67 @@
 /-
-  TwProofs.C14 — property theorems (see DESIGN.md, section 6).
+  TwProofs.C14 — rendering is deterministic.
+
+  Every place where the Go code ranges over a map (fact F10 lists them) is modelled by "take the
+  entries in some order, sort by key, iterate".  The theorems below show that the result does
+  not depend on the order in which the map hands out its entries: for each such site, any
+  permutation of the entries (keys distinct, as in a Go map) gives the same result.
 -/
-import TwModel
-import TwSpec
+import TwProofs.Lemmas.Sort
 
 namespace Tw.C14
 open Tw
+
+/-- the key-sorted view of a map is the same for every iteration order -/
+theorem sorted_view_order_independent {α} (l1 l2 : List (Bytes × α)) (hp : l1.Perm l2) (hd : KeysDistinct l1) :
+    sortByKey l1 = sortByKey l2 :=
+  sortByKey_perm_invariant l1 l2 hp hd
+
+/-- object literals: value *and* reported error do not depend on the order of the parser's map -/
+theorem object_literal_order_independent (fuel : Nat) (c : Ctx) (env : Env) (t : Token)
+    (p1 p2 : List (Bytes × Expr)) (hp : p1.Perm p2) (hd : KeysDistinct p1) :
+    evalExpr fuel c env (.obj t p1) = evalExpr fuel c env (.obj t p2) := by
+  cases fuel with
+  | zero => rfl
+  | succ f => simp only [evalExpr, sortByKey_perm_invariant p1 p2 hp hd]
+
+/-- component arguments: the same -/
+theorem component_args_order_independent (fuel : Nat) (c : Ctx) (env : Env) (t : Token) (name : Bytes) (cid : Nat)
+    (p1 p2 : List (Bytes × Expr)) (hp : p1.Perm p2) (hd : KeysDistinct p1) :
+    evalStmt fuel c env (.component t name (some p1) cid) = evalStmt fuel c env (.component t name (some p2) cid) := by
+  cases fuel with
+  | zero => rfl
+  | succ f => simp only [evalStmt, sortByKey_perm_invariant p1 p2 hp hd]
+
+/-- the data map: environment, or which value is reported as unsupported / re-typed -/
+theorem data_map_order_independent (d1 d2 : List (Bytes × GoVal)) (hp : d1.Perm d2) (hd : KeysDistinct d1) :
+    envFromMap d1 = envFromMap d2 := by
+  simp only [envFromMap, sortByKey_perm_invariant d1 d2 hp hd]
+
+/-- maps inside the data: the converted object -/
+theorem native_map_order_independent (m1 m2 : List (Bytes × Val)) (hp : m1.Perm m2) (hd : KeysDistinct m1) :
+    Val.obj (sortByKey m1) = Val.obj (sortByKey m2) := by
+  rw [sortByKey_perm_invariant m1 m2 hp hd]
+
+/-- printing and dumping are functions of the value (objects are kept key-sorted) -/
+theorem printing_is_a_function (v w : Val) (h : v = w) : v.toStr = w.toStr ∧ v.dump 0 = w.dump 0 := by
+  subst h; exact ⟨rfl, rfl⟩
+
+/-- which undefined insert is reported: the least name, whatever the order of the inserts map -/
+theorem undefined_insert_order_independent (i1 i2 : List (Bytes × InsertDef)) (hp : i1.Perm i2) (hd : KeysDistinct i1)
+    (reserves : List (Bytes × Nat)) :
+    (sortByKey i1).find? (fun p => (mapGet reserves p.1).isNone) = (sortByKey i2).find? (fun p => (mapGet reserves p.1).isNone) := by
+  rw [sortByKey_perm_invariant i1 i2 hp hd]
+
+/-- which faulty file is reported by `NewTemplate`: files are loaded in sorted name order -/
+theorem files_order_independent (n1 n2 : List (Bytes × Bytes)) (hp : n1.Perm n2) (hd : KeysDistinct n1) :
+    sortByKey n1 = sortByKey n2 :=
+  sortByKey_perm_invariant n1 n2 hp hd
+
+/-! non-vacuity: a permuted object literal with two failing entries reports the same error -/
+
+example :
+    (match evaluateStringPure [] (b "{{ {b: x, a: y, c: 1} }}") [], evaluateStringPure [] (b "{{ {c: 1, a: y, b: x} }}") [] with
+      | .fail f1, .fail f2 => f1.msg == f2.msg && containsSub f1.msg (b "'y'")
+      | _, _ => false) = true := by decide
 
 end Tw.C14
